@@ -82,6 +82,96 @@ def body_expr(item):
     return inner
 
 
+def _snake(name):
+    """serde's rename_all = "snake_case" for a variant name (RenameRule::SnakeCase applied to PascalCase)."""
+    out = ""
+    for i, ch in enumerate(name):
+        if ch.isupper():
+            if i > 0:
+                out += "_"
+            out += ch.lower()
+        else:
+            out += ch
+    return out
+
+
+def serialised_names(sf):
+    """-> list of (container, [names as written by serde]) for every struct / enum of the file that derives Serialize:
+    field name or its `rename`, variant name under the container's `rename_all` (only snake_case is understood)."""
+    res = []
+    for it in sf.items:
+        if it.kind not in ("struct", "enum") or it.body_open is None:
+            continue
+        if "Serialize" not in it.attrs:
+            continue
+        m = re.search(r'rename_all\s*=\s*"([^"]+)"', it.attrs)
+        rule = m.group(1) if m else None
+        if rule not in (None, "snake_case"):
+            raise LostAnchor("C19: rename_all = %s on %s not understood" % (rule, it.name))
+        body = it.src[it.body_open + 1:it.end - 1]
+        toks = code_tokens(body)
+        names, k, pend, depth = [], 0, None, 0
+        while k < len(toks):
+            t = toks[k]
+            if t[1] == "#" and toks[k + 1][1] == "[":
+                e = match_close(toks, k + 1)
+                if toks[k + 2][1] == "serde":
+                    txt = body[toks[k + 2][2]:toks[e][2]]
+                    mm = re.search(r'\brename\s*=\s*"([^"]+)"', txt)
+                    if mm:
+                        pend = mm.group(1)
+                    if re.search(r"\b(skip|skip_serializing|flatten|alias)\b", txt):
+                        raise LostAnchor("C19: serde attribute not understood on a member of %s: %s" % (it.name, txt))
+                k = e + 1
+                continue
+            if t[1] in ("(", "<", "[", "{"):
+                k = match_close(toks, k) + 1 if t[1] != "<" else k + 1
+                continue
+            if it.kind == "struct":
+                if t[0] == "id" and t[1] != "pub" and toks[k + 1][1] == ":" and toks[k + 2][1] != ":" and (k == 0 or toks[k - 1][1] in (",", "pub", "]", ")")):
+                    names.append(pend or t[1])
+                    pend = None
+                    # skip the type up to the next top-level comma
+                    j, d = k + 2, 0
+                    while j < len(toks) and not (toks[j][1] == "," and d == 0):
+                        if toks[j][1] in "<([":
+                            d += 1
+                        elif toks[j][1] in ">)]":
+                            d -= 1
+                        j += 1
+                    k = j + 1
+                    continue
+            else:
+                if t[0] == "id" and (k == 0 or toks[k - 1][1] in (",", "]")):
+                    names.append(pend or (_snake(t[1]) if rule else t[1]))
+                    pend = None
+            k += 1
+        res.append((it.name, names))
+    return res
+
+
+def distinct_lemma(container, names):
+    """A lemma whose postcondition is the pairwise distinctness of the serialised names; the proof is generated too
+    (literals revealed; a differing length or a differing character for every pair)."""
+    ens, body = [], []
+    for n in names:
+        body.append('reveal_strlit("%s"); assert("%s"@.len() == %d);' % (n, n, len(n)))
+    for i in range(len(names)):
+        for j in range(i + 1, len(names)):
+            a, b = names[i], names[j]
+            ens.append('"%s"@ != "%s"@' % (a, b))
+            if len(a) == len(b):
+                d = next((k for k in range(len(a)) if a[k] != b[k]), None)
+                if d is None:
+                    body.append('// "%s" is written twice: no proof possible' % a)
+                else:
+                    body.append('assert("%s"@[%d] != "%s"@[%d]);' % (a, d, b, d))
+    nm = "c19_names_%s" % container
+    txt = "// %s: names under which its members are written: %s\nproof fn %s()\n    ensures %s\n{\n    %s\n}" % (
+        container, ", ".join(names), nm, ",\n        ".join(ens) if ens else "true", "\n    ".join(body))
+    return nm, txt
+
+
 def generate(unit, em):
     sf = unit.src("src/ast.rs")
     fields = scan_fields(sf)
@@ -183,6 +273,13 @@ def generate(unit, em):
         out.append(("// %s.%s: %s  skip_serializing_if=%s default=%s\nproof fn %s(x: %s)\n    requires %s\n    ensures %s\n{\n}"
                     % (st, fld, ty, pred, dflt, nm, ty, p, d), {"kind": "spec", "file": "generated:c19", "line": 0, "lemma": nm}))
         lemmas.append({"name": nm, "props": ["C19"], "text": "%s.%s: %s(&x) ==> x is the value a missing field is read back as (%s)" % (st, fld, pred, dflt)})
+    # no two members of a container are written under the same name (a collision would make one of them unreadable)
+    for container, names in serialised_names(sf):
+        if len(names) < 2:
+            continue
+        nm, txt = distinct_lemma(container, names)
+        out.append((txt, {"kind": "spec", "file": "generated:c19", "line": 0, "lemma": nm}))
+        lemmas.append({"name": nm, "props": ["C19"], "text": "%s: the %d names its members are serialised under are pairwise distinct (%s)" % (container, len(names), ", ".join(names))})
     for txt, org in out:
         em.emit(txt, org)
     unit.cfg.setdefault("lemma", [])
